@@ -1,0 +1,20 @@
+//go:build verif
+
+package sourcerunner
+
+import (
+	"time"
+
+	"reduction.dev/reduction/util/vhook"
+)
+
+// verifRetune replaces the 200ms watermark ticker with the harness's interval
+// so that short simulated runs see watermarks.
+func (r *SourceRunner) verifRetune() {
+	t := vhook.Tuning()
+	if t == nil || t.WatermarkIntervalNanos == 0 {
+		return
+	}
+	r.watermarkTicker.Stop()
+	r.watermarkTicker = time.NewTicker(time.Duration(t.WatermarkIntervalNanos))
+}
